@@ -456,10 +456,73 @@ Proof.
   - eapply linked_touches_r. apply linked_sym. exact Hb.
 Qed.
 
+(* ------------------------------------------------------------------ pin geometry *)
+Lemma wire_id_inj c w w' :
+  NoDup (map w_id (c_wires c)) -> In w (c_wires c) -> In w' (c_wires c) -> w_id w = w_id w' -> w = w'.
+Proof.
+  intros Hnd Hw Hw' Hid.
+  pose proof (find_unique w_id (c_wires c) Hnd w Hw) as H1.
+  pose proof (find_unique w_id (c_wires c) Hnd w' Hw') as H2.
+  rewrite Hid in H1. rewrite H1 in H2. inversion H2. reflexivity.
+Qed.
+
+Lemma same_wire_pins_sound c p q w w' :
+  CircWF c -> same_wire_pins c p q = true -> In w (c_wires c) -> In w' (c_wires c) -> PinOfWire w p -> PinOfWire w' q -> w = w'.
+Proof.
+  intros Hwf H Hw Hw' Hp Hq. unfold same_wire_pins in H. rewrite forallb_forall in H.
+  specialize (H w Hw). rewrite forallb_forall in H. specialize (H w' Hw').
+  apply wire_pins_PinOfWire in Hp. apply wire_pins_PinOfWire in Hq.
+  apply pin_of_wire_In in Hp. apply pin_of_wire_In in Hq. rewrite Hp, Hq in H. simpl in H.
+  apply Nat.eqb_eq in H. exact (wire_id_inj c w w' (wf_ids c Hwf) Hw Hw' H).
+Qed.
+
+Lemma chk_pinpts_sound c l :
+  CircWF c -> chk_pinpts c l = true ->
+  forall a b, In a (l_pins l) -> In b (l_pins l) -> a_x a = a_x b -> a_y a = a_y b ->
+    forall w w', In w (c_wires c) -> In w' (c_wires c) -> PinOfWire w (a_pin a) -> PinOfWire w' (a_pin b) -> w = w'.
+Proof.
+  intros Hwf H a b Ha Hb Hx Hy w w' Hw Hw' Hp Hq. unfold chk_pinpts in H.
+  destruct (all_pairs_spec _ _ H a b Ha Hb) as [Heq|[Hab|Hba]].
+  - subst b. apply wire_pins_PinOfWire in Hp. apply wire_pins_PinOfWire in Hq.
+    exact (NoDup_flat_map_owner _ _ (wf_pins c Hwf) w w' (a_pin a) Hw Hw' Hp Hq).
+  - unfold pins_apartb, same_pt in Hab. rewrite Hx, Hy, !Z.eqb_refl in Hab. simpl in Hab.
+    exact (same_wire_pins_sound c _ _ w w' Hwf Hab Hw Hw' Hp Hq).
+  - unfold pins_apartb, same_pt in Hba. rewrite Hx, Hy, !Z.eqb_refl in Hba. simpl in Hba.
+    symmetry. exact (same_wire_pins_sound c _ _ w' w Hwf Hba Hw' Hw Hq Hp).
+Qed.
+
+Lemma geo_end_sound l e pt : NoDup (map s_id (l_syms l)) -> geo_end l e pt = true -> GeoEnd l e pt.
+Proof.
+  intros Hnd H s Hin Hid Hv. unfold geo_end in H.
+  rewrite (find_sym_complete l (e_sym e) s Hnd Hin Hid) in H. rewrite Hv in H.
+  destruct (e_pin e) as [p|]; [|discriminate H]. destruct pt as [xy|]; [|discriminate H].
+  apply existsb_exists in H. destruct H as [a [Ha Hm]]. unfold at_pin_pt in Hm.
+  apply andb_true_iff in Hm. destruct Hm as [Hm Hy]. apply andb_true_iff in Hm. destruct Hm as [Hm Hx].
+  apply andb_true_iff in Hm. destruct Hm as [Hi Hp].
+  apply Nat.eqb_eq in Hi. apply pin_eqb_eq in Hp. apply Z.eqb_eq in Hx. apply Z.eqb_eq in Hy.
+  exists p, (fst xy), (snd xy). split; [reflexivity|]. split; [|destruct xy; reflexivity].
+  destruct a as [ai ap ax ay]. simpl in *. subst. exact Ha.
+Qed.
+
+Lemma chk_geo_sound l :
+  NoDup (map s_id (l_syms l)) -> chk_geo l = true ->
+  forall n, In n (l_nets l) ->
+    (exists a b, n_from n = Some a /\ n_to n = Some b) /\ GeoEnd l (n_src n) (n_from n) /\ GeoEnd l (n_snk n) (n_to n).
+Proof.
+  intros Hnd H n Hn. unfold chk_geo in H. rewrite forallb_forall in H. specialize (H n Hn). unfold net_geo in H.
+  apply andb_true_iff in H. destruct H as [H H4]. apply andb_true_iff in H. destruct H as [H H3].
+  apply andb_true_iff in H. destruct H as [H1 H2].
+  split; [|split; apply geo_end_sound; assumption].
+  destruct (n_from n) as [a|]; [|discriminate H1]. destruct (n_to n) as [b|]; [|discriminate H2].
+  exists a, b. auto.
+Qed.
+
 (* ------------------------------------------------------------------ the theorem *)
 Theorem schem_ok_sound c l : schem_ok c l = true -> SchemOK c l.
 Proof.
   unfold schem_ok. intro H.
+  apply andb_true_iff in H. destruct H as [H Hgeo].
+  apply andb_true_iff in H. destruct H as [H Hpinpts].
   apply andb_true_iff in H. destruct H as [H Hwires].
   apply andb_true_iff in H. destruct H as [H Hends].
   apply andb_true_iff in H. destruct H as [H Hgeom].
@@ -479,6 +542,8 @@ Proof.
   - apply chk_ends_sound; assumption.
   - intros w Hw. unfold chk_wires in Hwires. rewrite forallb_forall in Hwires.
     apply (chk_wire_sound c l w Hwf Hnd Honly Hw (Hwires w Hw)).
+  - apply chk_pinpts_sound; assumption.
+  - apply chk_geo_sound; assumption.
 Qed.
 
 Lemma reach_connected l wid root fuel :
